@@ -4,5 +4,5 @@ CONSTANTS
   SourceSet = "all"
   PermAllUpTo = 4
 VIEW View
-INVARIANTS Deterministic ErrorOnFault NeverCrash RefIdentity NoDummyLeft ScaffoldBeforeUse CanonOrder
+INVARIANTS Deterministic ErrorOnFault NeverCrash RefIdentity NoDummyLeft ScaffoldBeforeUse CanonOrder TextualIsPositional
 CHECK_DEADLOCK FALSE
